@@ -10,6 +10,11 @@ CHECKS = {
   text="Exploration: each generated model is encoded by the SUT and read back by an independently written decoder (fields, truthful HdrLen/PayloadLen/UDP length, zero reserved bits, checksum over pseudo-header||message), decoded again by the SUT (equal model, no rest); encoding into a dirty buffer must equal encoding into a fresh Vec; canonical byte strings produced by the reference encoder must decode and re-encode identically; models that cannot be represented must be rejected (any accepted model has to pass all of the above).",
   note="Reference decoder written from the SCION header/SCMP diagrams; IPv4/IPv6 host semantics not interpreted; SCMP error models truncate their quote by design (checked as maximal prefix + re-encode stability); extension headers (HBH/E2E) are outside the SDK's model and not generated.",
   design="DESIGN.md §3 C03"),
+ "C12": dict(
+  technique="exhaustive enumeration of small path shapes x all pointer positions + proptest random paths; differential view vs model vs an independent reference (reversal, expiry, interfaces); metamorphic (reverse twice = identity); atomicity oracle (Err => operand byte-identical) on all view-accepted byte strings",
+  text="Exploration with exhaustive cores: every well-formed standard path with <=3 segments x <=3 hops at every hop/info position (random up to 64 hops) is taken through every operation offered on both representations and compared three ways (view, model, reference); every parseable standard-path byte string with segment lengths <=3 and every pointer value (random beyond) is taken through all fallible operations: an error must leave bytes, model and ScionPath (endpoints, metadata, fingerprints) untouched and nothing may panic; one-hop view/model operations are compared likewise.",
+  note="Agreement is asserted on well-formed paths only; known finding (open): path-level reversal of a one-hop path differs between ScionDpPathView (in place, stays one-hop) and DpPath (becomes a standard path).",
+  design="DESIGN.md §3 C12"),
  "C15": dict(
   technique="exhaustive enumeration of short strings and single-character edits + proptest random strings/values, differential against an independent reference grammar, display/parse round trip",
   text="Exploration: every (type,string) pair generated is compared (acceptance and value) with an independently written grammar; parse(display(v))==v and the serde string form are checked on generated values of all 15 address/identifier types; the DNS TXT payload parser is compared with the module's ABNF. Sub-domains enumerated completely: all strings of length<=3 over a 24-character alphabet, all single-character edits of the valid spellings of 8 base values.",
